@@ -389,7 +389,7 @@ impl Prop for C17 {
 	}
 	fn budget(&self, tier: Tier) -> (u64, u64) {
 		match tier {
-			Tier::Quick => (3_200, 90),
+			Tier::Quick => (2_800, 90),
 			Tier::Thorough => (80_000, 1200),
 		}
 	}
